@@ -212,6 +212,9 @@ func Exec(st Step, pool []*modeling.Mesh) (res modeling.Mesh, hasRes bool, ok bo
 		res = meshops.SmoothNormals(src(0))
 	case "Laplacian":
 		res = meshops.LaplacianSmooth(src(0), project.AttrName(st.i("id")), st.i("iters"), float64(st.i("lam2"))/2)
+	case "Misc":
+		// operations judged on frame (C01) and well-formedness (C02) only: no reference value in the model
+		res = misc(src(0), st.i("kind"), st.i("k"))
 	case "Export":
 		hasRes = false
 		export(src(0), st.str("fmt"))
@@ -345,4 +348,48 @@ func scan(m modeling.Mesh) {
 			_ = m.VertexNeighborTable()
 		}
 	}
+}
+
+func misc(m modeling.Mesh, kind, k int) modeling.Mesh {
+	switch kind {
+	case 1:
+		plane := geometry.NewPlaneFromPoints(vector3.New(float64(k)/2, 0., 0.), vector3.New(float64(k)/2, 1., 0.), vector3.New(float64(k)/2, 0., 1.))
+		a, b := meshops.SliceByPlaneWithAttribute(m, plane, modeling.PositionAttribute)
+		if k%2 == 0 {
+			return a
+		}
+		return b
+	case 2:
+		return meshops.ScaleAttributeAlongNormal(m, modeling.PositionAttribute, modeling.NormalAttribute, float64(k)/2)
+	case 3:
+		return meshops.NormalizeAttribute2D(m, modeling.TexCoordAttribute)
+	case 4:
+		return meshops.ScaleAttribute2D(m, modeling.TexCoordAttribute, vector2.New(0.5, 0.5), vector2.New(float64(k), 2.))
+	case 5:
+		return meshops.SmoothNormalsImplicitWeld(m, float64(k)/4)
+	case 6:
+		return meshops.VertexColorSpace(m, modeling.ColorAttribute, meshops.VertexColorSpaceTransformation(k%2))
+	case 7:
+		return meshops.LaplacianSmoothAlongAxis(m, modeling.PositionAttribute, 1+k%2, 0.5, vector3.Up[float64]())
+	case 8:
+		return m.ClearAttributeData()
+	case 9:
+		keep := map[string][]vector3.Float64{}
+		for i, a := range m.Float3Attributes() {
+			if i%2 == k%2 {
+				it := m.Float3Attribute(a)
+				d := make([]vector3.Float64, it.Len())
+				for j := range d {
+					d[j] = it.At(j)
+				}
+				keep[a] = d
+			}
+		}
+		return m.SetFloat3Data(keep)
+	case 10:
+		return m.Transform(meshops.UnweldTransformer{}, meshops.FlatNormalsTransformer{}, meshops.RemovedUnreferencedVerticesTransformer{})
+	case 11:
+		return m.Transform(meshops.CenterAttribute3DTransformer{}, meshops.ScaleAttribute3DTransformer{Amount: vector3.New(2., 1., float64(k))})
+	}
+	panic(harnessPanic{"unknown misc kind"})
 }
